@@ -272,7 +272,7 @@ def _main(prop: str, tier: str, seed: int, a: Any) -> int:
 		elif r.res.verdict == 'refuted' and (key in baseline or (r.ob.kind.startswith('raises') and f'{strip_inst(r.ob.func)}|raises-clause' in baseline)):
 			violations.append(Violation(prop, f'obligation discharged on the unchanged tree now has a counter-model: {r.ob.clause}', r.ob.func, r.ob.name, r.ob.clause, None,
 				native.detail if native else 'model not concretisable', (json.dumps(jsonable(r.res.model))[:1500] if r.res.model else '') + '\n' + r.res.detail[:1500], key))
-		elif r.res.verdict == 'unknown' and key in baseline and changed_sources(prop) and n_last_resort < 6:
+		elif r.res.verdict == 'unknown' and key in baseline and changed_sources(prop) and n_last_resort < 3:
 			# discharged on the committed baseline, no longer discharged (after the serial retry and one more attempt alone with four-fold budgets) now that the source text differs: reported, marked as not refuted
 			n_last_resort += 1
 			if not last_resort_still_open(r):
